@@ -2718,7 +2718,7 @@ class Entity(MutableMapping[str, str]):
             elif name == "id" and item.value.isnumeric():
                 ent_id = int(item.value)
             elif name.startswith('replace'):
-                ind_str = name[-2:]  # Index is the last 2 digits
+                ind_str = name[7:]  # Index is the digits after 'replace' (two, or more from 100 on)
                 try:
                     index = int(ind_str)
                 except ValueError:  # Not a replace value!
